@@ -321,7 +321,10 @@ def placement(path, tags):
         if pos < 0:
             res[t] = None
             continue
-        res[t] = next((s[0] for s in secs if s[1] == 1 and s[2] <= pos < s[2] + s[3]), "?")
+        # the output section that holds the tag: any section with file contents (a linker may give the output section the type of
+        # another input it also matched, e.g. SHT_NOTE or SHT_STRTAB), PROGBITS preferred
+        res[t] = next((s[0] for s in secs if s[1] == 1 and s[2] <= pos < s[2] + s[3]),
+                      next((s[0] for s in secs if s[1] not in (0, 8) and s[2] <= pos < s[2] + s[3]), "?"))
     return res
 
 
